@@ -172,8 +172,13 @@ def error_fn_rules(crate, path, loc_fn, res, rule):
                 if t[0] == "call" and (call_name(v, t) or "").endswith("::new") and strip_refs(t[3][0])[0] in ("call", "multi"):
                     okm = True
     ps = [bb for bb, c in v.calls() if c.fn is not None and c.base() == "std::string::String::push_str"]
-    if not okm or len(ps) != 1:
+    if not okm or len(ps) > 1:
         fs.append(fnd(rule, v, "the error does not carry the formatted message"))
+    elif len(ps) == 1:
+        # message.push_str(&<value produced by the arms>)
+        a1 = strip_refs(deep(v, v.origin(v.blocks[ps[0]]["term"]["args"][1])))
+        if a1[0] not in ("multi", "call"):
+            fs.append(fnd(rule, v, "what is appended to the message is not the text the arms produced"))
     res.add(rule, ob, fs)
 
 
